@@ -41,6 +41,9 @@ TZ_NAMES = ["Europe/London", "Asia/Tokyo", "Pacific/Apia", "America/New_York", "
 OLD_TZ_NAMES = ["Africa/Monrovia", "Europe/Amsterdam", "Europe/Dublin", "America/Bogota"]
 
 
+_ABSENT = object()
+
+
 class Recorder:
     """replaces every sun/moon target by a function that records its call and returns a
     sentinel; also freezes `today` as seen from astral.location"""
@@ -64,7 +67,7 @@ class Recorder:
                     return sentinel
                 return rec
             setattr(mod, name, make())
-        self.saved.append((astral.location, "today", astral.location.today))
+        self.saved.append((astral.location, "today", getattr(astral.location, "today", _ABSENT)))
 
         def fake_today(tz=None):
             self.today_zone.append(tz)
@@ -74,7 +77,11 @@ class Recorder:
 
     def __exit__(self, *exc):
         for mod, name, orig in self.saved:
-            setattr(mod, name, orig)
+            if orig is _ABSENT:
+                if hasattr(mod, name):
+                    delattr(mod, name)
+            else:
+                setattr(mod, name, orig)
         return False
 
 
